@@ -53,6 +53,7 @@ pub const INDEX_OPS: &[&str] = &[
     "path_text_last_plus",
     "path_text_slice",
     "keypath_text",
+    "get_by_index_extreme",
 ];
 
 /// rendering with indentation is quadratic in depth; keep the output below ~1 GB
@@ -340,6 +341,14 @@ fn run_index_text_op(op: &str, index: i32, index2: i32, len: usize, text: bool) 
     let obj = MVal::Obj(m);
     let st = mval::TextStyle::default();
     let enc = |v: &MVal| if text { mval::to_text(v, &st).into_bytes() } else { mval::encode(v) };
+    if op == "get_by_index_extreme" {
+        // the index is a usize: a negative i32 cast the way a caller would (`as usize`) lands at the top of the range
+        let idx = index as i64 as usize;
+        return match jsonb::get_by_index(&enc(&arr), idx) {
+            Some(_) => "completed".into(),
+            None => "error:none".into(),
+        };
+    }
     if op == "keypath_text" {
         let t = format!("{{k,{index}}}");
         return match jsonb::keypath::parse_key_paths(t.as_bytes()) {
@@ -446,7 +455,7 @@ pub fn child_main(arg: &str) -> i32 {
     let h = std::thread::Builder::new().name("case".into()).stack_size(stack as usize).spawn(move || {
         guard(|| match &case {
             Case::Depth { op, shape, depth, .. } => run_depth_op(op, shape, *depth),
-            Case::Index { op, index, index2, len, text, .. } if op.contains("text") => run_index_text_op(op, *index, *index2, *len, *text),
+            Case::Index { op, index, index2, len, text, .. } if op.contains("text") || op == "get_by_index_extreme" => run_index_text_op(op, *index, *index2, *len, *text),
             Case::Index { op, index, index2, len, text, .. } => run_index_op(op, *index, *index2, *len, *text),
         })
     });
